@@ -849,7 +849,10 @@ class World:
             job = FakeJob(self, argv, env if env is not None else dict(os.environ), vt)
             job.launch_i = len(self.log)
             self.jobs.append(job)
-            rec = self.note("launch", name=job.name, argv=argv[1:], host=vt.host, batch=vt.batch,
+            # a multi-node batch runs every job command on each of its nodes; only node 0 (the manager) records results.
+            # Launches on the other nodes are logged under their own kind so that per-job oracles see one launch per job.
+            job.aux = vt.env.get("SLURM_NODEID", "0") != "0"
+            rec = self.note("launch_aux" if job.aux else "launch", name=job.name, argv=argv[1:], host=vt.host, batch=vt.batch,
                             by=vt.proc.name, thread=vt.name)
             if self.observe_results:
                 out = job.env.get("JADE_RUNTIME_OUTPUT")
@@ -944,6 +947,15 @@ class World:
         if "-j" in argv:
             jid = argv[argv.index("-j") + 1]
         lines = []
+        # squeue honours its filters: -p/--partition lists only batches of that partition
+        part = None
+        for i, a in enumerate(argv):
+            if a in ("-p", "--partition") and i + 1 < len(argv):
+                part = argv[i + 1]
+            elif a.startswith("--partition="):
+                part = a.split("=", 1)[1]
+            elif a.startswith("-p") and len(a) > 2 and not a.startswith("--"):
+                part = a[2:]
         with_name = "name" in " ".join(argv)
         if jid is not None and (jid not in self.slurm or not self.slurm[jid]["visible"]):
             self.note("squeue", by=vt.proc.name, seen={}, job=jid)
@@ -952,6 +964,8 @@ class World:
             if not r["visible"]:
                 continue
             if jid is not None and j != jid:
+                continue
+            if part is not None and r.get("sbatch_opts", {}).get("partition") not in part.split(","):
                 continue
             shown = r.get("display") or r["state"]
             if with_name:
@@ -976,6 +990,8 @@ class World:
             r["visible"] = False
             if r["vt"] is not None:
                 self.kill(r["vt"], why="scancel")
+                for a in r.get("aux_vts", ()):
+                    self.kill(a, why="scancel")
         return SyncResult(0)
 
     # .... jade child processes (synchronous, same thread, own pid/env/stdout)
@@ -1190,7 +1206,8 @@ class World:
                     continue
                 ev.append(("finish", j))
         for jid, r in self.slurm.items():
-            if r["state"] == "RUNNING" and r["vt"] is not None and r["vt"].state == "done":
+            if r["state"] == "RUNNING" and r["vt"] is not None and r["vt"].state == "done" and all(
+                    a.state == "done" for a in r.get("aux_vts", ())):
                 ev.append(("end", jid))
         for jid, r in self.slurm.items():
             if r["state"] in ("COMPLETED", "FAILED", "TIMEOUT", "NODE_FAIL") and r["visible"]:
@@ -1286,6 +1303,16 @@ class World:
         self.note("start_batch", id=jid, batch=rec["batch"], cpus=rec["cpus"], host=host)
         vt = self.spawn(name, host, env, lambda: run_cli(exe, args), _command_kind(exe, args), argv=args, batch=jid)
         rec["vt"] = vt
+        # srun starts the run script on every node of the allocation (#SBATCH --nodes=N): N-1 more processes, SLURM_NODEID 1..
+        rec["aux_vts"] = []
+        try:
+            nnodes = int(str(rec.get("sbatch_opts", {}).get("nodes", 1)))
+        except ValueError:
+            nnodes = 1
+        for i in range(1, nnodes):
+            e = dict(env, SLURM_NODEID=str(i))
+            rec["aux_vts"].append(self.spawn(f"{name}.{i}", f"{host}-{i}", e, lambda: run_cli(exe, args), _command_kind(exe, args),
+                                             argv=args, batch=jid))
 
     def finish_job(self, job, rc=None):
         if rc is None:
@@ -1308,7 +1335,7 @@ class World:
             job._log_event("ended")
             job.evfh.close()
             job.evfh = None
-        self.note("finish", name=job.name, rc=rc, batch=job.batch)
+        self.note("finish_aux" if getattr(job, "aux", False) else "finish", name=job.name, rc=rc, batch=job.batch)
 
     def end_batch(self, jid):
         rec = self.slurm[jid]
@@ -1327,6 +1354,8 @@ class World:
         rec["death_state"] = state
         if rec["vt"] is not None:
             self.kill(rec["vt"], why=state)
+            for a in rec.get("aux_vts", ()):
+                self.kill(a, why=state)
 
     # ---------------------------------------------------------------- lifecycle
     def __enter__(self):
